@@ -39,10 +39,19 @@ SPEC = Spec(
         "MoveAndAppendTo appends in order, CopyTo copies every field of Resource/Scope",
         "gogo Size() of leaf messages and of a node's own fields are inputs measured on the real objects; the additive law "
         "size(parent) = own + sum(1 + len + sov(len)) is checked on every output request (sz= field), not proved from generated code",
+        "bridge between the batcher's contract (pack) and MergeSplit: C04_mergeSplit_fifo / C04_first_result_criterion (model "
+        "mergeSplit is FIFO, pending batch first; ItemsCount criterion), the `fifo` oracle on every real MergeSplit output, and "
+        "`last_is_receiver` (receiver returned as last result) on every real call; metrics FIFO is oracle only",
         "batcher harness: the request type is a fake that records the origin of every unit; its MergeSplit (FIFO packing) is the "
         "contract of the real one, not the real one (queuebatch cannot import exporterhelper)",
     ],
     assumptions=[
+        "metric identity on split: FALSE on /repo (open finding metric-identity-lost/anonymous-split-off-fragment); the theorem tied to "
+        "/repo is C04_conserve_metrics_partial (flag false); C04_conserve_metrics is about the repair 6f81c0a15 that was not taken "
+        "(no identity-preserving repair can keep the golden byte sizes of TestMergeSplitMetricsBasedOnByteSize) and is tied only when "
+        "the check runs against /tmp/wt-C04",
+        "metrics x bytes: size bound FALSE on /repo (open finding batch-exceeds-max/metrics-bytes-empty-fragment), cachedSize is an upper "
+        "bound (>=): oracle on every run, no theorem",
         "Consume, the timer flush and Shutdown are serialised by currentBatchMu (modelled as atomic labels); flush goroutines end in any order",
         "int arithmetic does not overflow (sizes are far below 2^63)",
     ],
